@@ -246,6 +246,20 @@ var props = map[string]propCfg{
 		Bounds:   "as C01: all byte strings <= 3/4, token sequences <= 2/3, and 1-2 free token slots inside 19 bracket/operator contexts (range bounds, groups, field values, prefix/suffix operators), with and without default field",
 		Outside:  "longer inputs; garbage needing more than 2 free tokens in one place",
 	},
+	"C14": {
+		Quick: []hrun{
+			{Harness: "Purity", Params: P("SRC", 0, "D", 1, "LEAVES", 1, "DF", 0)}, {Harness: "Purity", Params: P("SRC", 0, "D", 1, "LEAVES", 1, "DF", 1)},
+			{Harness: "Purity", Params: P("SRC", 0, "D", 2, "LEAVES", 0, "DF", 0)},
+			{Harness: "Purity", Params: P("SRC", 1, "K", 2, "DF", 0)},
+		},
+		Thorough: []hrun{
+			{Harness: "Purity", Params: P("SRC", 0, "D", 1, "LEAVES", 1, "DF", 0)}, {Harness: "Purity", Params: P("SRC", 0, "D", 1, "LEAVES", 1, "DF", 1)},
+			{Harness: "Purity", Params: P("SRC", 0, "D", 2, "LEAVES", 0, "DF", 0)}, {Harness: "Purity", Params: P("SRC", 0, "D", 2, "LEAVES", 0, "DF", 1)},
+			{Harness: "Purity", Params: P("SRC", 1, "K", 2, "DF", 0)}, {Harness: "Purity", Params: P("SRC", 1, "K", 3, "DF", 0)},
+		},
+		Bounds:  "every path of: trees of depth <= 1 over 19 leaf forms and depth <= 2 over 3 leaf forms, token sequences of <= 2 (quick) / 3 (thorough) tokens; per path: Parse twice, String, %#v, Validate, Render twice, RenderParam twice, ToPostgres twice; monitors: package-level variables of the module unchanged at path end, shared expression unchanged after each consumer, no map iteration / goroutine / channel / pointer formatting executed after the epoch",
+		Outside: "schedules are not explored: absence of writes to shared state and of nondeterminism sources on every explored path is the argument for race freedom and schedule independence (Go memory model); JSON encoding is covered by C12; inputs beyond the bounds",
+	},
 	"C15": {
 		Quick: []hrun{
 			{Harness: "DriverFold", Params: P("D", 1, "LEAVES", 1, "MODE", 0, "RETLEN", 1)},
